@@ -44,14 +44,19 @@ package zlib
 //@   ensures[C16 closed] old(z.closed) && old(z.err) == nil && len(p) > 0 ==> err != nil && extWrites == old(extWrites)
 //@   ensures[C10 hdr-first] z.wroteHeader
 
+// calls of the deflate writer's Flush made by Flush itself (raised by the `counts` clause below)
+//@ ghost global zCompFlushCalls int
+
 //@ func (*Writer).Flush
 //@   requires zwOK(z)
-//@   modifies *z, **z.compressor, **z.w, extWrites, lastWriteErr
+//@   modifies *z, **z.compressor, **z.w, zCompFlushCalls, extWrites, lastWriteErr
 //@   ensures[C16 inv] zwOK(z)
 //@   ensures[C14 C16 sticky-in] old(z.err) != nil ==> result == old(z.err) && extWrites == old(extWrites) && same(z.err)
 //@   ensures[C14 sticky-out] result != nil ==> z.err == result
 //@   ensures[C16 closed] old(z.closed) && old(z.err) == nil ==> result != nil && extWrites == old(extWrites)
 //@   ensures[C10 hdr-first] z.wroteHeader
+//@   counts call Flush as zCompFlushCalls
+//@   ensures[C09 C10 flush-reaches-compressor] result == nil ==> zCompFlushCalls == old(zCompFlushCalls) + 1
 
 //@ func (*Writer).Close
 //@   requires zwOK(z)
